@@ -531,3 +531,39 @@ package protocol
 //@   props C03
 //@   allocates
 //@   ensures err == nil ==> r >= 0
+
+// ---- C09: an object goes into its pool only after it was reset (the resets themselves are proved above) ----
+//@ ghost var poolReset bool
+//@ func ReleaseRequest(req)
+//@   props C09
+//@   abstract
+//@   noinline
+//@   modifies poolReset
+//@   ghostset-at-entry poolReset = false
+//@   ghostset after Request.Reset: poolReset = (arg0 == req)
+//@   assert before Put: poolReset
+//@ func ReleaseResponse(resp)
+//@   props C09
+//@   abstract
+//@   noinline
+//@   modifies poolReset
+//@   ghostset-at-entry poolReset = false
+//@   ghostset after Response.Reset: poolReset = (arg0 == resp)
+//@   assert before Put: poolReset
+//@ func ReleaseURI(u)
+//@   props C09
+//@   abstract
+//@   noinline
+//@   modifies poolReset
+//@   ghostset-at-entry poolReset = false
+//@   ghostset after URI.Reset: poolReset = (arg0 == u)
+//@   assert before Put: poolReset
+//@ func ReleaseCookie(c)
+//@   props C09
+//@   abstract
+//@   noinline
+//@   modifies poolReset
+//@   ghostset-at-entry poolReset = false
+//@   ghostset after Cookie.Reset: poolReset = (arg0 == c)
+//@   assert before Put: poolReset
+
